@@ -19,7 +19,10 @@ CHECKS = {
   "text": "Handler level: " + _NET + ". Monitors: every beacon persisted by aggregation or sync verifies for exactly its round under the pinned key "
           "(StoredUnverifiable, ScanUnverifiable on a final cursor scan), every item served on a peer sync stream equals the stored beacon, under streams of "
           "forged partials of every kind (wrong key/round/previous, replayed, truncated, bit-flipped, non-member, own index) from up to n-t members; "
-          "2 schemes in quick, all 5 in thorough.",
+          "1-2 schemes in quick, all 5 in thorough. HTTP: HttpRelay.tla transcribes handler/http/server.go (PublicRand, the two looks of getRand, the watch loop with "
+          "skips/failures/reconnects, timeouts, LatestRand); TLC explores it exhaustively, its counterexamples and a transition tour of the complete labelled state graph are replayed on the real "
+          "DrandHandler (scripted client over fabricated valid chains of all 5 schemes) and Trace_HttpRelay evaluates on every observed response that a 200 is exactly one verifying beacon of the "
+          "requested round with randomness = sha256(signature).",
   "design_ref": "DESIGN.md 4 C01", "note": _TRUST, "technique": _TECH,
  },
  "C02": {
@@ -64,6 +67,30 @@ CHECKS = {
           "and the half-length prefix. The kyber DKG is not run: the harness performs the tail of executeAndFinishDKG (Complete, SaveFinished, fan-out) in that order on the daemon's real store and channel. "
           "Resumes = the handler was created and is running on the restarted daemon.",
   "technique": "TLA+ spec + TLC exhaustive model checking + spec-driven crash-point enumeration on the real daemon + TLC trace validation",
+ },
+ "C10": {
+  "text": "Exhaustive bounded TLC exploration of SyncClient.tla: three peers, all behaviour mixes up to symmetry over Honest, Silent, Stall, CloseEarly, BadSig, WrongRound, ForeignId, "
+          "transient-then-honest and behind-the-target, chained and unchained, start heights and targets, participant / follow / repair modes, concurrent Sync goroutines plus the aggregator; "
+          "safety invariants OnlyVerifiedInOrder, NothingFromLiars, gap-free chain, RepairUntouched, CheckNeverAborts and the liveness property Converges under fairness without state constraint. "
+          "TLC simulation walks and the design counterexamples are replayed on the real SyncManager behind the production store stack (real trimmed bolt store, real BLS beacons, in-memory "
+          "ProtocolClient, fake clock) and on the real BeaconProcess.StartFollowChain; TLC validates both recorded traces and evaluates OnlyVerifiedInOrder, NothingFromLiars, CheckExact, "
+          "RepairExact and Converges (at quiescence) on the observed values.",
+  "design_ref": "DESIGN.md 4 C10",
+  "note": "Trusted: TLC, BLS uniqueness, the harness oracles (independent VerifyBeacon under the pinned key, store read-back, goroutine-stack quiescence test). Peers are scripted per stream. "
+          "Run-mode liveness on real code means target reached within 150 fair periods. Check and repair are driven through chainStore.ValidateChain / RunReSync (the calls StartCheckChain makes). "
+          "Only the bolt trimmed backend is used for corruption/repair.",
+  "technique": "TLA+ spec + TLC exhaustive model checking (safety and liveness) + TLC-generated scenario replay + TLC trace validation of real-code executions",
+ },
+ "C15": {
+  "text": "TLC checks exhaustively (1 and 2 nodes, epochs <= 2, 4 umasks) that no emission of the 45-emitter inventory of Secrecy.tla carries a private-key or share atom (emitter contents are "
+          "projections of the code's objects onto the fields each function copies) and that secret-bearing files are owner-only at every system call of a save. TLC walks of the file machine are "
+          "replayed on the real key/DKG/chain stores; a real first DKG, resharing, complaint plus justification, a rejected and aborted proposal, and a real beacon-producing daemon answering every "
+          "gRPC/HTTP endpoint in three lifecycle phases are recorded (all packets, responses, stream items, HTTP bodies, debug logs, stdout, files). TLC validates the recording with the monitors "
+          "NoSecretEmitted, OnlyPublicOrEncrypted and SecretFileOwnerOnly on a byte-scan oracle for every long-term scalar, share and decrypted deal share; the evidence lists which emitters were exercised.",
+  "design_ref": "DESIGN.md 4 C15",
+  "note": "Detection power is the byte scan: only the listed encodings are seen (each with a positive control per run). kyber's private polynomial coefficients are not reachable. TLS/gRPC framing, "
+          "the metrics HTTP server and CLI output are not scanned. File modes are as observed under the umask the harness sets.",
+  "technique": "TLA+ inventory model + TLC exhaustive model checking + TLC trace validation of recorded real traffic/files/logs with a byte-scan oracle",
  },
  "C12": {
   "text": "Exhaustive TLC exploration of PartialCache.tla (complete state graph on small constants) for the per-signer bound and no-cross-eviction, "
